@@ -447,12 +447,12 @@ theorem strapCoeff_fwd_gen {pts : List (PRC α)} (hp : Profile pts) {dir : Dir} 
     · -- coincident indices: the stale `back` is the true one
       have hbb : max s.back (segOf pts offsetBack) = s.back := by omega
       rw [if_pos heq, getP_eq hsf.1]
-      simp only [Res.bind]
+      simp only
       rw [hbb] at hsb ⊢
       have hsb' : Seg pts (max s.front (segOf pts offset)) offsetBack := by rw [heq]; exact hsb
       rw [diffquot_same_seg hp hsf hsb' hlen hback]
     · rw [if_neg heq]
-      simp only [cB .fwd (by simp), Res.bind, getP_eq hsf.1, getP_eq hsb.1, hl0, Bool.false_eq_true,
+      simp only [cB .fwd (by simp), getP_eq hsf.1, getP_eq hsb.1, hl0, Bool.false_eq_true,
         if_false]
       rw [prcVal_of_seg hp hsf, prcVal_of_seg hp hsb]
   | unk =>
@@ -460,11 +460,11 @@ theorem strapCoeff_fwd_gen {pts : List (PRC α)} (hp : Profile pts) {dir : Dir} 
     simp only [cF .unk (by simp), cB .unk (by simp), bind, Res.bind, pure]
     by_cases heq : max s.front (segOf pts offset) = max s.back (segOf pts offsetBack)
     · rw [if_pos heq, getP_eq hsf.1]
-      simp only [Res.bind]
+      simp only
       have hsb' : Seg pts (max s.front (segOf pts offset)) offsetBack := by rw [heq]; exact hsb
       rw [diffquot_same_seg hp hsf hsb' hlen hback]
     · rw [if_neg heq]
-      simp only [Res.bind, getP_eq hsf.1, getP_eq hsb.1, hl0, Bool.false_eq_true, if_false]
+      simp only [getP_eq hsf.1, getP_eq hsb.1, hl0, Bool.false_eq_true, if_false]
       rw [prcVal_of_seg hp hsf, prcVal_of_seg hp hsb]
 
 /-- **`Strap::calc_res`, backward direction**, for cached indices that are in range and not before the
@@ -500,11 +500,582 @@ theorem strapCoeff_bwd_gen {pts : List (PRC α)} (hp : Profile pts)
     rw [if_pos heq]
     rw [hff] at hsf ⊢
     rw [getP_eq hsf.1]
-    simp only [Res.bind]
+    simp only
     have hsb' : Seg pts s.front offsetBack := by rw [heq]; exact hsb
     rw [diffquot_same_seg hp hsf hsb' hlen hback]
   · rw [if_neg heq]
-    simp only [cF, Res.bind, getP_eq hsf.1, getP_eq hsb.1, hl0, Bool.false_eq_true, if_false]
+    simp only [cF, getP_eq hsf.1, getP_eq hsb.1, hl0, Bool.false_eq_true, if_false]
     rw [prcVal_of_seg hp hsf, prcVal_of_seg hp hsb]
+
+/-! ### no panic: `Post r Q` = "`r` is not a panic, and if it is `ok v` then `Q v`" -/
+
+def Post {σ : Type} (r : Res σ) (Q : σ → Prop) : Prop :=
+  match r with
+  | .ok v => Q v
+  | .err _ => True
+  | .panic _ => False
+
+theorem Post.bind {σ τ : Type} {r : Res σ} {f : σ → Res τ} {Q : σ → Prop} {R : τ → Prop}
+    (h : Post r Q) (hf : ∀ v, Q v → Post (f v) R) : Post (r >>= f) R := by
+  cases r with
+  | ok v => exact hf v h
+  | err e => exact True.intro
+  | panic e => exact h.elim
+
+theorem Post.mono {σ : Type} {r : Res σ} {Q R : σ → Prop} (h : Post r Q) (hqr : ∀ v, Q v → R v) :
+    Post r R := by
+  cases r with
+  | ok v => exact hqr v h
+  | err e => exact True.intro
+  | panic e => exact h.elim
+
+theorem Post.noPanic {σ : Type} {r : Res σ} {Q : σ → Prop} (h : Post r Q) (m : String) :
+    r ≠ .panic m := by
+  intro e; rw [e] at h; exact h
+
+theorem Post.of_ok {σ : Type} {r : Res σ} {Q : σ → Prop} {v : σ} (h : Post r Q) (e : r = .ok v) : Q v := by
+  rw [e] at h; exact h
+
+/-- forward loop, no sortedness needed: if the last offset is not left of `x` the loop stays in range -/
+theorem scanFwd_post (pts : List (PRC α)) (x : α)
+    (hlast : ∀ (j : Nat) (h : j < pts.length), pts.length ≤ j + 1 → ¬ pts[j].off < x) :
+    ∀ (fuel i : Nat), i + 1 < pts.length → pts.length - 1 - i ≤ fuel →
+      Post (scanFwd pts x fuel i) (fun k => i ≤ k ∧ k + 1 < pts.length) := by
+  intro fuel
+  induction fuel with
+  | zero => intro i h1 h2; omega
+  | succ f ih =>
+    intro i h1 h2
+    unfold scanFwd
+    rw [getP_eq h1]
+    simp only [bind, Res.bind]
+    split_ifs with hlt
+    · have h3 : i + 2 < pts.length := by
+        by_contra hcon
+        exact hlast (i + 1) h1 (by omega) hlt
+      exact (ih (i + 1) h3 (by omega)).mono (fun k hk => ⟨by omega, hk.2⟩)
+    · exact ⟨le_refl _, h1⟩
+
+/-- backward loop, no sortedness needed: if the first offset is not right of `x` there is no underflow -/
+theorem scanBwd_post (pts : List (PRC α)) (x : α)
+    (hfirst : ∀ h : 0 < pts.length, ¬ x < pts[0].off) :
+    ∀ (fuel i : Nat), i < pts.length → i < fuel → Post (scanBwd pts x fuel i) (fun k => k ≤ i) := by
+  intro fuel
+  induction fuel with
+  | zero => intro i _ h; omega
+  | succ f ih =>
+    intro i h1 h2
+    unfold scanBwd
+    rw [getP_eq h1]
+    simp only [bind, Res.bind]
+    split_ifs with hlt h0
+    · subst h0; exact absurd hlt (hfirst h1)
+    · exact (ih (i - 1) (by omega) (by omega)).mono (fun k hk => by omega)
+    · exact le_refl _
+
+/-- **`calc_idx` never panics on an in-range hint (forward / unknown).**  No assumption on `x` or
+    on the ordering of the list: a failed `ensure!` is an `Err`, not a panic. -/
+theorem calcIdx_post_fwd (pts : List (PRC α)) (x : α) {dir : Dir} (hdir : dir ≠ .bwd) {idx : Nat}
+    (hidx : idx + 1 < pts.length) :
+    Post (calcIdx pts x idx dir) (fun k => idx ≤ k ∧ k + 1 < pts.length) := by
+  unfold calcIdx
+  rw [if_pos hdir]
+  cases hl : pts.getLast? with
+  | none =>
+    rw [List.getLast?_eq_none_iff] at hl
+    simp [hl] at hidx
+  | some l =>
+    obtain ⟨hn, hle⟩ := getLast?_eq_getElem_of hl
+    simp only
+    split_ifs with hx
+    · apply scanFwd_post pts x _ _ idx hidx (by omega)
+      intro j hj hj2
+      have : j = pts.length - 1 := by omega
+      subst this
+      rw [hle]; exact not_lt.mpr hx
+    · exact True.intro
+
+/-- **`calc_idx` never panics on an in-range hint (backward).** -/
+theorem calcIdx_post_bwd (pts : List (PRC α)) (x : α) {idx : Nat} (hidx : idx < pts.length) :
+    Post (calcIdx pts x idx .bwd) (fun k => k ≤ idx) := by
+  unfold calcIdx
+  rw [if_neg (by simp)]
+  cases hh : pts.head? with
+  | none =>
+    rw [List.head?_eq_none_iff] at hh
+    simp [hh] at hidx
+  | some p0 =>
+    obtain ⟨hn, hhe⟩ := head?_eq_getElem_of hh
+    simp only
+    split_ifs with hx
+    · apply scanBwd_post pts x _ _ idx hidx (by omega)
+      intro _
+      rw [hhe]; exact not_lt.mpr hx
+    · exact True.intro
+
+/-- cached indices that the loops can start from without an out-of-range access -/
+def InRange (dir : Dir) (n : Nat) (s : StrapIdx) : Prop :=
+  match dir with
+  | .bwd => s.front < n ∧ s.back < n
+  | _ => s.front + 1 < n ∧ s.back + 1 < n
+
+theorem getP_post {pts : List (PRC α)} {i : Nat} (h : i < pts.length) :
+    Post (getP pts i) (fun _ => True) := by
+  rw [getP_eq h]; exact True.intro
+
+/-- **`Strap::calc_res` never panics** on in-range cached indices and a positive train length, and
+    the new cached indices are in range again. -/
+theorem strapCoeff_post (pts : List (PRC α)) (s : StrapIdx) (offset offsetBack length : α) (dir : Dir)
+    (hlen : 0 < length) (hs : InRange dir pts.length s) :
+    Post (strapCoeff pts s offset offsetBack length dir) (fun r => InRange dir pts.length r.1) := by
+  have hl0 : (!decide (0 < length)) = false := by simp [hlen]
+  cases dir with
+  | fwd =>
+    obtain ⟨h1, h2⟩ := hs
+    unfold strapCoeff
+    simp only [hl0, Bool.false_eq_true, if_false]
+    refine Post.bind (Q := fun s' : StrapIdx => s'.front + 1 < pts.length ∧ s'.back = s.back) ?_ ?_
+    · exact (calcIdx_post_fwd pts offset (by simp) h1).bind (fun k hk => ⟨hk.2, rfl⟩)
+    · rintro s' ⟨hf', hb'⟩
+      split_ifs with heq
+      · exact (getP_post (by omega)).bind (fun p _ => ⟨hf', by rw [← heq]; exact hf'⟩)
+      · refine Post.bind (Q := fun s'' : StrapIdx => s''.front + 1 < pts.length ∧ s''.back + 1 < pts.length) ?_ ?_
+        · exact (calcIdx_post_fwd pts offsetBack (by simp) (by rw [hb']; exact h2)).bind
+            (fun k hk => ⟨hf', hk.2⟩)
+        · rintro s'' ⟨hf'', hb''⟩
+          refine (getP_post (by omega)).bind (fun pf _ => ?_)
+          refine (getP_post (by omega)).bind (fun pb _ => ?_)
+          exact ⟨hf'', hb''⟩
+  | unk =>
+    obtain ⟨h1, h2⟩ := hs
+    unfold strapCoeff
+    simp only [hl0, Bool.false_eq_true, if_false]
+    refine Post.bind (Q := fun s' : StrapIdx => s'.front + 1 < pts.length ∧ s'.back + 1 < pts.length) ?_ ?_
+    · refine (calcIdx_post_fwd pts offset (by simp) h1).bind (fun f hf => ?_)
+      exact (calcIdx_post_fwd pts offsetBack (by simp) h2).bind (fun b hb => ⟨hf.2, hb.2⟩)
+    · rintro s' ⟨hf', hb'⟩
+      split_ifs with heq
+      · exact (getP_post (by omega)).bind (fun p _ => ⟨hf', hb'⟩)
+      · refine Post.bind (Q := fun s'' : StrapIdx => s'' = s') rfl ?_
+        rintro s'' rfl
+        refine (getP_post (by omega)).bind (fun pf _ => ?_)
+        refine (getP_post (by omega)).bind (fun pb _ => ?_)
+        exact ⟨hf', hb'⟩
+  | bwd =>
+    obtain ⟨h1, h2⟩ := hs
+    unfold strapCoeff
+    simp only [hl0, Bool.false_eq_true, if_false]
+    refine Post.bind (Q := fun s' : StrapIdx => s'.front = s.front ∧ s'.back < pts.length) ?_ ?_
+    · exact (calcIdx_post_bwd pts offsetBack h2).bind (fun k hk => ⟨rfl, lt_of_le_of_lt hk h2⟩)
+    · rintro s' ⟨hf', hb'⟩
+      split_ifs with heq
+      · exact (getP_post (by omega)).bind (fun p _ => ⟨by rw [hf']; exact h1, hb'⟩)
+      · refine Post.bind (Q := fun s'' : StrapIdx => s''.front < pts.length ∧ s''.back < pts.length) ?_ ?_
+        · exact (calcIdx_post_bwd pts offset (by rw [hf']; exact h1)).bind
+            (fun k hk => ⟨lt_of_le_of_lt hk (by rw [hf']; exact h1), hb'⟩)
+        · rintro s'' ⟨hf'', hb''⟩
+          refine (getP_post hf'').bind (fun pf _ => ?_)
+          refine (getP_post hb'').bind (fun pb _ => ?_)
+          exact ⟨hf'', hb''⟩
+
+theorem InRange.front_lt {dir : Dir} {n : Nat} {s : StrapIdx} (h : InRange dir n s) : s.front < n := by
+  cases dir <;> (obtain ⟨h1, _⟩ := h; omega)
+theorem InRange.back_lt {dir : Dir} {n : Nat} {s : StrapIdx} (h : InRange dir n s) : s.back < n := by
+  cases dir <;> (obtain ⟨_, h2⟩ := h; omega)
+
+/-- **`Strap::update_res` never panics** on in-range cached indices and a positive train length;
+    the in-range condition is re-established. -/
+theorem updateRes_post (g rho : α) (grades curves : List (PRC α)) (r : ResStrap α) (st : ResState α)
+    (dir : Dir) (hlen : 0 < st.length) (hg : InRange dir grades.length r.grade)
+    (hc : InRange dir curves.length r.curve) :
+    Post (updateRes g rho grades curves r st dir)
+      (fun out => InRange dir grades.length out.1.grade ∧ InRange dir curves.length out.1.curve) := by
+  unfold updateRes
+  refine (strapCoeff_post grades r.grade _ _ _ dir hlen hg).bind ?_
+  rintro ⟨gi, gc⟩ hgi
+  refine (strapCoeff_post curves r.curve _ _ _ dir hlen hc).bind ?_
+  rintro ⟨ci, cc⟩ hci
+  refine (getP_post hgi.front_lt).bind (fun pf _ => ?_)
+  refine (getP_post hgi.back_lt).bind (fun pb _ => ?_)
+  exact ⟨hgi, hci⟩
+
+/-! ### `method::Strap::update_res`: the explicit result -/
+
+/-- the scalar (non-path) part of the new train state -/
+def scalarState (g rho : α) (r : ResStrap α) (st : ResState α) : ResState α :=
+  { st with offsetBack := st.offset - st.length, weightStatic := st.massStatic * g,
+            resBearing := r.bearingForce, resRolling := r.rollingRatio * (st.massStatic * g),
+            resDavisB := r.davisB * st.speed * (st.massStatic * g),
+            resAero := r.cdArea * rho * st.speed * st.speed }
+
+theorem updateRes_ok_of {g rho : α} {grades curves : List (PRC α)} {r : ResStrap α} {st : ResState α}
+    {dir : Dir} {gi ci : StrapIdx} {gc cc : α}
+    (h1 : strapCoeff grades r.grade st.offset (st.offset - st.length) st.length dir = .ok (gi, gc))
+    (h2 : strapCoeff curves r.curve st.offset (st.offset - st.length) st.length dir = .ok (ci, cc))
+    (hf : gi.front < grades.length) (hb : gi.back < grades.length) :
+    updateRes g rho grades curves r st dir =
+      .ok ({ r with grade := gi, curve := ci },
+           { scalarState g rho r st with
+               resGrade := gc * (st.massStatic * g), resCurve := cc * (st.massStatic * g),
+               gradeFront := grades[gi.front].coeff, gradeBack := grades[gi.back].coeff,
+               elevFront := prcVal grades[gi.front] st.offset }) := by
+  unfold updateRes
+  simp only [h1, h2, getP_eq hf, getP_eq hb, bind, Res.bind, pure, scalarState]
+
+/-- every accepted `update_res` has the scalar part given by the definitions, whatever the path -/
+theorem updateRes_scalars {g rho : α} {grades curves : List (PRC α)} {r r' : ResStrap α}
+    {st st' : ResState α} {dir : Dir} (h : updateRes g rho grades curves r st dir = .ok (r', st')) :
+    (st'.offset = st.offset ∧ st'.speed = st.speed ∧ st'.length = st.length ∧
+      st'.massStatic = st.massStatic) ∧
+    (r'.bearingForce = r.bearingForce ∧ r'.rollingRatio = r.rollingRatio ∧ r'.davisB = r.davisB ∧
+      r'.cdArea = r.cdArea) ∧
+    st'.offsetBack = st.offset - st.length ∧
+    st'.weightStatic = st.massStatic * g ∧
+    st'.resBearing = r.bearingForce ∧
+    st'.resRolling = r.rollingRatio * st'.weightStatic ∧
+    st'.resDavisB = r.davisB * st.speed * st'.weightStatic ∧
+    st'.resAero = r.cdArea * rho * st.speed * st.speed := by
+  unfold updateRes at h
+  simp only [bind, Res.bind, pure] at h
+  split at h
+  next gv hgv =>
+    split at h
+    next cv hcv =>
+      split at h
+      next pf hpf =>
+        split at h
+        next pb hpb =>
+          injection h with h
+          injection h with hr hst
+          subst hr; subst hst
+          simp
+        all_goals cases h
+      all_goals cases h
+    all_goals cases h
+  all_goals cases h
+
+/-! ### the hint invariant along runs -/
+
+/-- The invariant of the cached indices of one `path_res::Strap` when the train front is at `x`:
+    both indices leave room for the forward loop's look-ahead (`idx + 1` in range) and each points
+    at a closed segment containing its position. -/
+structure StrapInv (pts : List (PRC α)) (len : α) (s : StrapIdx) (x : α) : Prop where
+  frontR : s.front + 1 < pts.length
+  backR : s.back + 1 < pts.length
+  front : Seg pts s.front x
+  back : Seg pts s.back (x - len)
+
+/-- one step is admissible after the front was at `x`: forward / unknown direction to a position not
+    behind `x` (and not beyond the end), or backward direction to a position not ahead of `x`
+    (rear not before the start) -/
+def StepOK (len lastOff firstOff x : α) (x' : α) (dir : Dir) : Prop :=
+  (dir ≠ .bwd ∧ x ≤ x' ∧ x' ≤ lastOff) ∨ (dir = .bwd ∧ x' ≤ x ∧ firstOff ≤ x' - len)
+
+/-- **One step keeps the invariant and returns the right coefficient**, whatever mixture of
+    directions: forward steps may follow backward ones and vice versa. -/
+theorem strapCoeff_step {pts : List (PRC α)} (hp : Profile pts) {len : α} (hlen : 0 < len)
+    {l p0 : PRC α} (hl : pts.getLast? = some l) (hh : pts.head? = some p0)
+    {s : StrapIdx} {x : α} (hinv : StrapInv pts len s x) {x' : α} {dir : Dir}
+    (hstep : StepOK len l.off p0.off x x' dir) :
+    ∃ s', strapCoeff pts s x' (x' - len) len dir = .ok (s', (E pts x' - E pts (x' - len)) / len) ∧
+      StrapInv pts len s' x' := by
+  have hs := hp.sorted
+  have hne : pts ≠ [] := by intro h0; have := hinv.frontR; simp [h0] at this
+  have hF := (seg_iff hs hne _ _).mp hinv.front
+  have hB := (seg_iff hs hne _ _).mp hinv.back
+  rcases hstep with ⟨hd, hxx, hxl⟩ | ⟨hd, hxx, hxf⟩
+  · have hif : s.front ≤ segOfB pts x' := le_trans hF.2 (segOfB_mono pts hxx)
+    have hib : s.back ≤ segOfB pts (x' - len) := le_trans hB.2 (segOfB_mono pts (by linarith))
+    refine ⟨_, strapCoeff_fwd_gen hp hd hl hlen rfl hxl hinv.frontR hinv.backR hif hib, ?_, ?_, ?_, ?_⟩
+    · have := segOf_succ_lt hs (by have := hinv.frontR; omega) hl hxl
+      have := hinv.frontR
+      show max _ _ + 1 < _; omega
+    · have := segOf_succ_lt hs (by have := hinv.frontR; omega) hl (x := x' - len) (by linarith)
+      have := hinv.backR
+      show max _ _ + 1 < _; omega
+    · exact (seg_iff hs hne _ _).mpr ⟨le_max_right _ _, max_le hif (segOf_le_segOfB _ _)⟩
+    · exact (seg_iff hs hne _ _).mpr ⟨le_max_right _ _, max_le hib (segOf_le_segOfB _ _)⟩
+  · subst hd
+    have hif : segOf pts x' ≤ s.front := le_trans (segOf_mono pts hxx) hF.1
+    have hib : segOf pts (x' - len) ≤ s.back := le_trans (segOf_mono pts (by linarith)) hB.1
+    refine ⟨_, strapCoeff_bwd_gen hp hh hlen rfl hxf (by have := hinv.frontR; omega)
+      (by have := hinv.backR; omega) hif hib, ?_, ?_, ?_, ?_⟩
+    · have := hinv.frontR
+      show min _ _ + 1 < _; omega
+    · have := hinv.backR
+      show min _ _ + 1 < _; omega
+    · exact (seg_iff hs hne _ _).mpr ⟨le_min hif (segOf_le_segOfB _ _), min_le_right _ _⟩
+    · exact (seg_iff hs hne _ _).mpr ⟨le_min hib (segOf_le_segOfB _ _), min_le_right _ _⟩
+
+/-- a run of `Strap::calc_res` calls, each fed the cached indices left by the previous one
+    (specification-level driver; `len` is the train length) -/
+def strapRun (pts : List (PRC α)) (len : α) : StrapIdx → List (α × Dir) → Res (StrapIdx × List α)
+  | s, [] => .ok (s, [])
+  | s, (x, d) :: rest =>
+    match strapCoeff pts s x (x - len) len d with
+    | .ok (s', c) =>
+      match strapRun pts len s' rest with
+      | .ok (s'', cs) => .ok (s'', c :: cs)
+      | .err e => .err e
+      | .panic e => .panic e
+    | .err e => .err e
+    | .panic e => .panic e
+
+/-- every step of the run is admissible after the previous one -/
+def StepsOK (len lastOff firstOff : α) : α → List (α × Dir) → Prop
+  | _, [] => True
+  | x, (x', d) :: rest => StepOK len lastOff firstOff x x' d ∧ StepsOK len lastOff firstOff x' rest
+
+/-- **Hint invariant along runs.**  Starting from valid cached indices, every coefficient returned along
+    an admissible run (forward steps with non-decreasing positions, backward steps with
+    non-increasing positions, in any mixture — in particular `Unk` at the end of the path followed
+    by `Bwd` steps, as `BrakingPoints::recalc` does) is the difference quotient of the declarative
+    profile, and the invariant holds again at the end. -/
+theorem strapRun_correct {pts : List (PRC α)} (hp : Profile pts) {len : α} (hlen : 0 < len)
+    {l p0 : PRC α} (hl : pts.getLast? = some l) (hh : pts.head? = some p0) :
+    ∀ (steps : List (α × Dir)) (s : StrapIdx) (x : α), StrapInv pts len s x →
+      StepsOK len l.off p0.off x steps →
+      ∃ s', strapRun pts len s steps =
+          .ok (s', steps.map (fun xd => (E pts xd.1 - E pts (xd.1 - len)) / len)) ∧
+        StrapInv pts len s' (steps.foldl (fun _ xd => xd.1) x) := by
+  intro steps
+  induction steps with
+  | nil => intro s x hinv _; exact ⟨s, rfl, hinv⟩
+  | cons xd rest ih =>
+    obtain ⟨x', d⟩ := xd
+    intro s x hinv hsteps
+    obtain ⟨hstep, hrest⟩ := hsteps
+    obtain ⟨s1, h1, hinv1⟩ := strapCoeff_step hp hlen hl hh hinv hstep
+    obtain ⟨s2, h2, hinv2⟩ := ih s1 x' hinv1 hrest
+    refine ⟨s2, ?_, hinv2⟩
+    simp only [strapRun, h1, h2, List.map_cons]
+
+/-- a run of `calc_idx` queries, each with the previous answer as hint -/
+def idxRun (pts : List (PRC α)) (dir : Dir) : Nat → List α → Res (List Nat)
+  | _, [] => .ok []
+  | h, x :: xs =>
+    match calcIdx pts x h dir with
+    | .ok i =>
+      match idxRun pts dir i xs with
+      | .ok is => .ok (i :: is)
+      | .err e => .err e
+      | .panic e => .panic e
+    | .err e => .err e
+    | .panic e => .panic e
+
+/-- forward queries `x₁ ≤ x₂ ≤ …`, hint not beyond the first true index: every answer is the true index -/
+theorem idxRun_fwd {pts : List (PRC α)} (hs : Sorted pts) (h2 : 2 ≤ pts.length) {dir : Dir}
+    (hdir : dir ≠ .bwd) {l : PRC α} (hl : pts.getLast? = some l) :
+    ∀ (xs : List α) (h : Nat), xs.Pairwise (· ≤ ·) → (∀ x ∈ xs, x ≤ l.off) →
+      (∀ x ∈ xs.head?, h ≤ segOf pts x) →
+      idxRun pts dir h xs = .ok (xs.map (segOf pts)) := by
+  intro xs
+  induction xs with
+  | nil => intro h _ _ _; rfl
+  | cons x xs ih =>
+    intro h hpw hle hh
+    have hpw' := List.pairwise_cons.mp hpw
+    have hx : x ≤ l.off := hle x (by simp)
+    have hhx : h ≤ segOf pts x := hh x (by simp)
+    have hlt := segOf_succ_lt hs h2 hl hx
+    have e1 : calcIdx pts x h dir = .ok (segOf pts x) := by
+      rw [calcIdx_fwd_gen hs hdir hl hx (by omega), max_eq_right hhx]
+    have e2 := ih (segOf pts x) hpw'.2 (fun y hy => hle y (by simp [hy]))
+      (fun y hy => by
+        cases xs with
+        | nil => simp at hy
+        | cons z zs =>
+          simp at hy; subst hy
+          exact segOf_mono pts (hpw'.1 _ (by simp)))
+    simp only [idxRun, e1, e2, List.map_cons]
+
+/-- backward queries `x₁ ≥ x₂ ≥ …`, hint not before the first true (left-closed) index -/
+theorem idxRun_bwd {pts : List (PRC α)} (hs : Sorted pts)
+    {p0 : PRC α} (hh0 : pts.head? = some p0) :
+    ∀ (xs : List α) (h : Nat), xs.Pairwise (· ≥ ·) → (∀ x ∈ xs, p0.off ≤ x) → h < pts.length →
+      (∀ x ∈ xs.head?, segOfB pts x ≤ h) →
+      idxRun pts .bwd h xs = .ok (xs.map (segOfB pts)) := by
+  have hne : pts ≠ [] := by intro h0; simp [h0] at hh0
+  intro xs
+  induction xs with
+  | nil => intro h _ _ _ _; rfl
+  | cons x xs ih =>
+    intro h hpw hle hlt hh
+    have hpw' := List.pairwise_cons.mp hpw
+    have hx : p0.off ≤ x := hle x (by simp)
+    have hhx : segOfB pts x ≤ h := hh x (by simp)
+    have e1 : calcIdx pts x h .bwd = .ok (segOfB pts x) := by
+      rw [calcIdx_bwd_gen hs hh0 hx hlt, min_eq_right hhx]
+    have e2 := ih (segOfB pts x) hpw'.2 (fun y hy => hle y (by simp [hy])) (segOfB_lt_length hne x)
+      (fun y hy => by
+        cases xs with
+        | nil => simp at hy
+        | cons z zs =>
+          simp at hy; subst hy
+          exact segOfB_mono pts (hpw'.1 _ (by simp)))
+    simp only [idxRun, e1, e2, List.map_cons]
+
+/-! ### stability across `PathTpc::extend`
+
+`extend` overwrites the slope of the LAST point (it was the `0` placeholder) and appends new points:
+`grades' = setLast grades (fun g => { g with coeff := c }) ++ more`.  Offsets of the old points are
+unchanged and the new ones lie beyond them, so segment indices, cached indices and the profile
+value at every position up to the old end are unchanged. -/
+
+theorem setLast_eq (pts : List (PRC α)) (f : PRC α → PRC α) (hne : pts ≠ []) :
+    setLast pts f = pts.dropLast ++ [f (pts.getLast hne)] := by
+  unfold setLast
+  have h := List.dropLast_append_getLast hne
+  generalize pts.dropLast = d at h ⊢
+  generalize pts.getLast hne = a at h ⊢
+  subst h
+  simp
+
+theorem setLast_length (pts : List (PRC α)) (f : PRC α → PRC α) : (setLast pts f).length = pts.length := by
+  by_cases hne : pts = []
+  · subst hne; simp [setLast]
+  · rw [setLast_eq pts f hne]
+    have : 0 < pts.length := List.length_pos_iff.mpr hne
+    simp; omega
+
+theorem setLast_getElem_off (pts : List (PRC α)) (f : PRC α → PRC α) (hf : ∀ p, (f p).off = p.off)
+    (i : Nat) (h : i < pts.length) :
+    ((setLast pts f)[i]'(by rw [setLast_length]; exact h)).off = pts[i].off := by
+  have hne : pts ≠ [] := by intro h0; simp [h0] at h
+  have e := setLast_eq pts f hne
+  have hl := setLast_length pts f
+  by_cases hi : i < pts.length - 1
+  · have : (setLast pts f)[i]'(by omega) = pts[i] := by
+      simp only [e]
+      rw [List.getElem_append_left (by simp; exact hi)]
+      simp
+    rw [this]
+  · have hi' : i = pts.length - 1 := by omega
+    have : (setLast pts f)[i]'(by omega) = f (pts.getLast hne) := by
+      simp only [e]
+      rw [List.getElem_append_right (by simp; omega)]
+      simp
+    rw [this, hf, List.getLast_eq_getElem]
+    congr 1
+    simp only [hi']
+
+theorem setLast_getElem_lt (pts : List (PRC α)) (f : PRC α → PRC α)
+    (i : Nat) (h : i + 1 < pts.length) :
+    (setLast pts f)[i]'(by rw [setLast_length]; omega) = pts[i] := by
+  have hne : pts ≠ [] := by intro h0; simp [h0] at h
+  simp only [setLast_eq pts f hne]
+  rw [List.getElem_append_left (by simp; omega)]
+  simp
+
+/-- the counts depend on the offsets only -/
+theorem countP_off_congr (P : α → Bool) :
+    ∀ (a b : List (PRC α)), a.map (·.off) = b.map (·.off) →
+      a.countP (fun p => P p.off) = b.countP (fun p => P p.off) := by
+  intro a b h
+  have : ∀ c : List (PRC α), c.countP (fun p => P p.off) = (c.map (·.off)).countP P := by
+    intro c; rw [List.countP_map]; rfl
+  rw [this a, this b, h]
+
+theorem setLast_map_off (pts : List (PRC α)) (f : PRC α → PRC α) (hf : ∀ p, (f p).off = p.off) :
+    (setLast pts f).map (·.off) = pts.map (·.off) := by
+  apply List.ext_getElem
+  · simp [setLast_length]
+  · intro i h1 h2
+    simp only [List.getElem_map]
+    exact setLast_getElem_off pts f hf i (by simpa using h2)
+
+/-- **Across `extend`, positions up to the old end keep their segment indices** (both conventions). -/
+theorem segOf_extend {pts more : List (PRC α)} {f : PRC α → PRC α} (hf : ∀ p, (f p).off = p.off)
+    (hs : Sorted (setLast pts f ++ more)) {l : PRC α} (hl : pts.getLast? = some l)
+    {x : α} (hx : x ≤ l.off) :
+    segOf (setLast pts f ++ more) x = segOf pts x ∧ segOfB (setLast pts f ++ more) x = segOfB pts x := by
+  have hne : pts ≠ [] := by intro h0; simp [h0] at hl
+  have hlast : l = pts.getLast hne := by
+    rw [List.getLast?_eq_some_getLast hne] at hl; exact (Option.some.inj hl).symm
+  -- every appended point lies beyond the old end
+  have hmore : ∀ q ∈ more, l.off < q.off := by
+    intro q hq
+    have hpa := List.pairwise_append.mp hs
+    have : f (pts.getLast hne) ∈ setLast pts f := by rw [setLast_eq pts f hne]; simp
+    have := hpa.2.2 _ this q hq
+    rwa [hf, ← hlast] at this
+  have h1 : cntLt more x = 0 := by
+    unfold cntLt
+    apply List.countP_eq_zero.mpr
+    intro q hq
+    simp only [decide_eq_true_eq, not_lt]
+    exact le_of_lt (lt_of_le_of_lt hx (hmore q hq))
+  have h2 : cntLe more x = 0 := by
+    unfold cntLe
+    apply List.countP_eq_zero.mpr
+    intro q hq
+    simp only [decide_eq_true_eq, not_le]
+    exact lt_of_le_of_lt hx (hmore q hq)
+  have h3 : cntLt (setLast pts f) x = cntLt pts x :=
+    countP_off_congr (fun o => decide (o < x)) _ _ (setLast_map_off pts f hf)
+  have h4 : cntLe (setLast pts f) x = cntLe pts x :=
+    countP_off_congr (fun o => decide (o ≤ x)) _ _ (setLast_map_off pts f hf)
+  constructor
+  · unfold segOf
+    have : cntLt (setLast pts f ++ more) x = cntLt (setLast pts f) x + cntLt more x := by
+      unfold cntLt; rw [List.countP_append]
+    rw [this, h1, h3]; rfl
+  · unfold segOfB
+    have : cntLe (setLast pts f ++ more) x = cntLe (setLast pts f) x + cntLe more x := by
+      unfold cntLe; rw [List.countP_append]
+    rw [this, h2, h4]; rfl
+
+/-- **Across `extend`, the profile value up to the old end is unchanged** (the overwritten slope of the
+    old last point is never used there, provided the old list had at least one segment). -/
+theorem E_extend {pts more : List (PRC α)} {f : PRC α → PRC α} (hf : ∀ p, (f p).off = p.off)
+    (hs : Sorted (setLast pts f ++ more)) (hs0 : Sorted pts) (h2 : 2 ≤ pts.length)
+    {l : PRC α} (hl : pts.getLast? = some l) {x : α} (hx : x ≤ l.off) :
+    E (setLast pts f ++ more) x = E pts x := by
+  have hlt := segOf_succ_lt hs0 h2 hl hx
+  have hseg := (segOf_extend hf hs hl hx).1
+  have hlen := setLast_length pts f
+  rw [E_eq x (by rw [hseg, List.length_append, hlen]; omega), E_eq x (by omega)]
+  simp only [hseg]
+  rw [List.getElem_append_left (by rw [hlen]; omega), setLast_getElem_lt pts f _ hlt]
+
+/-- **Across `extend`, cached indices stay valid**: the strap invariant transfers to the extended list. -/
+theorem StrapInv_extend {pts more : List (PRC α)} {f : PRC α → PRC α} (hf : ∀ p, (f p).off = p.off)
+    (hs : Sorted (setLast pts f ++ more)) (hs0 : Sorted pts)
+    {l : PRC α} (hl : pts.getLast? = some l) {len : α} (hlen : 0 ≤ len) {s : StrapIdx} {x : α}
+    (hx : x ≤ l.off) (hinv : StrapInv pts len s x) : StrapInv (setLast pts f ++ more) len s x := by
+  have hne : pts ≠ [] := by intro h0; simp [h0] at hl
+  have hlen' : pts.length ≤ (setLast pts f ++ more).length := by
+    rw [List.length_append, setLast_length]; omega
+  have hne' : setLast pts f ++ more ≠ [] := by
+    have : 0 < pts.length := List.length_pos_iff.mpr hne
+    exact List.length_pos_iff.mp (by omega)
+  have e1 := segOf_extend hf hs hl hx
+  have e2 := segOf_extend hf hs hl (x := x - len) (by linarith)
+  refine ⟨by have := hinv.frontR; omega, by have := hinv.backR; omega, ?_, ?_⟩
+  · rw [seg_iff hs hne', e1.1, e1.2, ← seg_iff hs0 hne]; exact hinv.front
+  · rw [seg_iff hs hne', e2.1, e2.2, ← seg_iff hs0 hne]; exact hinv.back
+
+/-! ### the declarative indices are characterised by their defining inequalities -/
+
+/-- `segOf pts x` is THE index `i` with `off_i < x ≤ off_{i+1}` (`i = 0` also covers `x ≤ off_0`) -/
+theorem segOf_unique {pts : List (PRC α)} (hs : Sorted pts) {i : Nat} {x : α} (hi : i + 1 < pts.length)
+    (h1 : i = 0 ∨ (pts[i]'(by omega)).off < x) (h2 : x ≤ pts[i + 1].off) : segOf pts x = i := by
+  have a : ¬ (i + 1 < cntLt pts x) := fun hh =>
+    absurd ((lt_iff_cntLt hs x _ hi).mpr hh) (not_lt.mpr h2)
+  rcases h1 with rfl | h1
+  · unfold segOf; omega
+  · have := (lt_iff_cntLt hs x i (by omega)).mp h1
+    unfold segOf; omega
+
+/-- `segOfB pts x` is THE index `i` with `off_i ≤ x < off_{i+1}` (the last index also covers `x ≥ off_{n-1}`) -/
+theorem segOfB_unique {pts : List (PRC α)} (hs : Sorted pts) {i : Nat} {x : α} (hi : i < pts.length)
+    (h1 : pts[i].off ≤ x) (h2 : ∀ h : i + 1 < pts.length, x < pts[i + 1].off) : segOfB pts x = i := by
+  have a := (le_iff_cntLe hs x i hi).mp h1
+  have b := cntLe_le_length pts x
+  by_cases h : i + 1 < pts.length
+  · have : ¬ (i + 1 < cntLe pts x) := fun hh =>
+      absurd ((le_iff_cntLe hs x _ h).mpr hh) (not_le.mpr (h2 h))
+    unfold segOfB; omega
+  · unfold segOfB; omega
 
 end Altrios.Proofs.ResistL
